@@ -16,6 +16,7 @@ import (
 	"os"
 	"path/filepath"
 	"sort"
+	"strings"
 	"sync"
 	"testing"
 	"time"
@@ -36,9 +37,30 @@ type beh struct {
 	Fail    bool `json:"fail"`
 }
 
+// fileSpec is one file of a streaming SendLargeFile call with its own target list
+type fileSpec struct {
+	Len  int      `json:"len"`
+	A    int      `json:"a"`
+	B    int      `json:"b"`
+	Dst  string   `json:"dst"`
+	Mode int64    `json:"mode"`
+	UID  int      `json:"uid"`
+	GID  int      `json:"gid"`
+	IDs  []string `json:"ids"`
+}
+
+func (f fileSpec) content() []byte {
+	c := make([]byte, f.Len)
+	for i := range c {
+		c[i] = byte(f.A*i + f.B)
+	}
+	return c
+}
+
 type kase struct {
 	ID    string         `json:"id"`
-	Op    string         `json:"op"` // chunks | send
+	Op    string         `json:"op"`              // chunks | send | stream
+	Files []fileSpec     `json:"files,omitempty"` // stream: several files, one after the other, on ONE SendLargeFile stream
 	Len   int            `json:"len"`
 	A     int            `json:"a"` // content[i] = (a*i + b) mod 256
 	B     int            `json:"b"`
@@ -77,6 +99,8 @@ func (e *scriptEngine) VirtualizationCopyChunkTo(_ context.Context, ID, target s
 	e.mu.Lock()
 	e.n[ID]++
 	e.args[ID] = []any{target, size, uid, gid, mode}
+	e.n[ID+"|"+target]++
+	e.args[ID+"|"+target] = []any{target, size, uid, gid, mode}
 	e.mu.Unlock()
 	var got []byte
 	buf := make([]byte, 2048)
@@ -93,6 +117,7 @@ func (e *scriptEngine) VirtualizationCopyChunkTo(_ context.Context, ID, target s
 	}
 	e.mu.Lock()
 	e.got[ID] = got
+	e.got[ID+"|"+target] = got
 	e.mu.Unlock()
 	if b.Fail {
 		return errScripted
@@ -221,6 +246,74 @@ func runSend(k *kase) {
 	k.Impl = map[string]any{"finished": true, "results": results, "targets": targets}
 }
 
+// runStream feeds several files, one after the other, into ONE SendLargeFile call (what a client of the
+// streaming SendLargeFile RPC can do): every file has its own target list.
+func runStream(k *kase) {
+	eng := &scriptEngine{behs: k.Behs, got: map[string][]byte{}, args: map[string][]any{}, n: map[string]int{}}
+	cal.VerifSetStore(&wrapStore{Store: base, eng: eng})
+	defer cal.VerifSetStore(base)
+	type res struct {
+		ID   string `json:"id"`
+		Path string `json:"path"`
+		Err  string `json:"err"`
+	}
+	results := []res{}
+	finished := make(chan struct{})
+	go func() {
+		dc := make(chan *types.SendLargeFileOptions)
+		ch := cal.SendLargeFile(context.Background(), dc)
+		go func() {
+			defer close(dc)
+			for _, f := range k.Files {
+				file := types.LinuxFile{Filename: f.Dst, Content: f.content(), UID: f.UID, GID: f.GID, Mode: f.Mode}
+				for _, chunk := range rpc.VerifToSendLargeFileChunks(file, f.IDs) {
+					dc <- chunk
+				}
+			}
+		}()
+		for m := range ch {
+			results = append(results, res{ID: m.ID, Path: m.Path, Err: errClass(m.Error)})
+		}
+		close(finished)
+	}()
+	deadline := time.Duration(hx.EnvInt("VERIF_SEND_DEADLINE_MS", 20000)) * time.Millisecond
+	select {
+	case <-finished:
+	case <-time.After(deadline):
+		k.Impl = map[string]any{"finished": false}
+		hangs++
+		return
+	}
+	sort.Slice(results, func(i, j int) bool {
+		if results[i].ID != results[j].ID {
+			return results[i].ID < results[j].ID
+		}
+		if results[i].Path != results[j].Path {
+			return results[i].Path < results[j].Path
+		}
+		return results[i].Err < results[j].Err
+	})
+	eng.mu.Lock()
+	defer eng.mu.Unlock()
+	contents := map[string][]byte{}
+	for _, f := range k.Files {
+		if _, ok := contents[f.Dst]; !ok {
+			contents[f.Dst] = f.content()
+		}
+	}
+	targets := map[string]any{}
+	for key, got := range eng.got {
+		i := strings.Index(key, "|")
+		if i < 0 {
+			continue
+		}
+		c := contents[key[i+1:]]
+		ok := len(got) <= len(c) && string(got) == string(c[:len(got)])
+		targets[key] = map[string]any{"got_len": len(got), "prefix_ok": ok, "calls": eng.n[key], "args": eng.args[key]}
+	}
+	k.Impl = map[string]any{"finished": true, "results": results, "targets": targets}
+}
+
 func run(k *kase) {
 	k.Chunk = types.SendLargeFileChunkSize
 	kind, msg := hx.Guard(60*time.Second, func() {
@@ -234,6 +327,8 @@ func run(k *kase) {
 			k.Impl = map[string]any{"chunks": out}
 		case "send":
 			runSend(k)
+		case "stream":
+			runStream(k)
 		}
 	})
 	if kind != "" {
@@ -264,7 +359,58 @@ func genLen(r *hx.Rng, big bool) int {
 	}
 }
 
+// genStream: 2-3 files on one stream with disjoint, overlapping or equal target lists (duplicates included)
+func genStream(r *hx.Rng, i int) *kase {
+	k := &kase{ID: fmt.Sprintf("m%d", i), Op: "stream", Behs: map[string]beh{}}
+	nf := r.Range(2, 3)
+	pool := append([]string{}, present...)
+	hx.Shuffle(r, pool)
+	pool = append(pool[:4], "missing0")
+	shape := r.Intn(3) // 0 disjoint, 1 overlapping, 2 random
+	next := 0
+	for j := 0; j < nf; j++ {
+		f := fileSpec{Len: genLen(r, false), A: r.Range(1, 255), B: r.Intn(256), Dst: fmt.Sprintf("/tmp/f%d", j),
+			Mode: int64(hx.Pick(r, 0644, 0600, 0755)), UID: r.Intn(2000), GID: r.Intn(2000)}
+		n := r.Range(1, 2)
+		for t := 0; t < n; t++ {
+			var id string
+			switch shape {
+			case 0:
+				id = pool[next%len(pool)]
+				next++
+			case 1:
+				if j > 0 && t == 0 {
+					id = k.Files[j-1].IDs[0]
+				} else {
+					id = pool[next%len(pool)]
+					next++
+				}
+			default:
+				id = hx.Pick(r, pool...)
+			}
+			f.IDs = append(f.IDs, id)
+			if r.Chance(20) {
+				f.IDs = append(f.IDs, id)
+			}
+			if _, ok := k.Behs[id]; !ok {
+				b := beh{Limit: -1}
+				if id == "missing0" {
+					b.Missing = true
+				} else if r.Chance(20) {
+					b.Limit, b.Fail = r.Range(0, f.Len+1), r.Chance(70)
+				}
+				k.Behs[id] = b
+			}
+		}
+		k.Files = append(k.Files, f)
+	}
+	return k
+}
+
 func genCase(r *hx.Rng, i int) *kase {
+	if r.Chance(20) {
+		return genStream(r, i)
+	}
 	k := &kase{ID: fmt.Sprintf("g%d", i), A: r.Range(1, 255), B: r.Intn(256), Dst: hx.Pick(r, "/tmp/f", "/etc/app.conf", "rel/x"),
 		Mode: int64(hx.Pick(r, 0644, 0600, 0755, 0)), UID: r.Intn(2000), GID: r.Intn(2000)}
 	if r.Chance(35) {
@@ -322,6 +468,15 @@ func corpus() []*kase {
 		m("c-send-missing-big", "send", 13*cs, []string{"w0", "missing0"}, map[string]beh{"w0": all, "missing0": {Missing: true, Limit: -1}}),
 		m("c-send-engine-reject-big", "send", 13*cs, []string{"w0", "w1"}, map[string]beh{"w0": all, "w1": {Limit: 0, Fail: true}}),
 		m("c-send-engine-abort-big", "send", 20*cs, []string{"w1"}, map[string]beh{"w1": {Limit: 3000, Fail: true}}),
+		{ID: "c-stream-disjoint", Op: "stream", Behs: map[string]beh{"w1": all, "w2": all}, Files: []fileSpec{
+			{Len: 3*cs + 5, A: 7, B: 3, Dst: "/tmp/a", Mode: 0644, UID: 1, GID: 1, IDs: []string{"w1", "w1"}},
+			{Len: 100, A: 5, B: 9, Dst: "/tmp/b", Mode: 0600, UID: 2, GID: 2, IDs: []string{"w2"}}}},
+		{ID: "c-stream-same-target", Op: "stream", Behs: map[string]beh{"w1": all}, Files: []fileSpec{
+			{Len: cs + 1, A: 7, B: 3, Dst: "/tmp/a", Mode: 0644, UID: 1, GID: 1, IDs: []string{"w1"}},
+			{Len: 100, A: 5, B: 9, Dst: "/tmp/b", Mode: 0600, UID: 2, GID: 2, IDs: []string{"w1"}}}},
+		{ID: "c-stream-overlap-big", Op: "stream", Behs: map[string]beh{"w1": all, "w2": all, "w3": {Limit: 0, Fail: true}}, Files: []fileSpec{
+			{Len: 13 * cs, A: 7, B: 3, Dst: "/tmp/a", Mode: 0644, UID: 1, GID: 1, IDs: []string{"w1", "w3"}},
+			{Len: 13 * cs, A: 5, B: 9, Dst: "/tmp/b", Mode: 0600, UID: 2, GID: 2, IDs: []string{"w1", "w2"}}}},
 		m("c-send-early-ok-big", "send", 20*cs, []string{"w1"}, map[string]beh{"w1": {Limit: 0}}),
 	}
 }
